@@ -618,6 +618,9 @@ func main() {
 	for _, f := range fams {
 		famNames = append(famNames, fmt.Sprintf("%s=%d", f.name, f.n))
 	}
+	for _, f := range fams {
+		run.Sample(f.name, f.at(configs[0], f.n/2).desc)
+	}
 	run.Set("families_cases_per_configuration", famNames)
 	run.Set("configurations", len(configs))
 	run.Set("cases_per_configuration", perCfg[configs[0].Name])
